@@ -3,6 +3,8 @@ package harness
 // oracle_gov.go — C16 (governance gate, asset-parameter validity) and C19 (determinism).
 
 import (
+	"testing"
+	"time"
 	"bytes"
 	"crypto/sha256"
 	"encoding/hex"
@@ -62,9 +64,47 @@ func isGov(k string) bool {
 }
 
 func (o *OracleC16) Before(x *Exec, op *Op) {
+	x.OnRejected = nil
 	if isGov(op.K) {
 		o.preDump = dumpStoreRaw(x.W, x.Ctx, alliancetypes.StoreKey)
+		// "field validation then authority comparison before any write": a handler that refuses a
+		// request must not have written anything by then — judged on the handler's own branch, before
+		// baseapp's rollback hides it (a handler may be called outside a transaction: legacy
+		// proposal execution, other modules, genesis tooling)
+		pre := o.preDump
+		k := op.K
+		x.OnRejected = func(ctx sdk.Context, res *Res) {
+			if res.Panic != "" {
+				return // a panic aborts the whole transaction in every caller
+			}
+			now := dumpStoreRaw(x.W, ctx, alliancetypes.StoreKey)
+			if d := diffDumps(pre, now); d != "" {
+				x.Fail("C16", "rejected-no-change", "%s was refused (%s) but its handler had already written to the module store: %s", k, res.Err, d)
+			}
+		}
 	}
+}
+
+// diffDumps describes the first difference of two raw store dumps ("" when equal).
+func diffDumps(a, b [][2][]byte) string {
+	am := map[string]string{}
+	for _, kv := range a {
+		am[string(kv[0])] = string(kv[1])
+	}
+	for _, kv := range b {
+		v, ok := am[string(kv[0])]
+		if !ok {
+			return fmt.Sprintf("new key %x", kv[0])
+		}
+		if v != string(kv[1]) {
+			return fmt.Sprintf("changed value of key %x", kv[0])
+		}
+		delete(am, string(kv[0]))
+	}
+	for k := range am {
+		return fmt.Sprintf("deleted key %x (and %d more)", k, len(am)-1)
+	}
+	return ""
 }
 
 func decOK(s string) (math.LegacyDec, bool) {
@@ -302,7 +342,32 @@ func (OracleC19) End(x *Exec) {
 			x.Label("c19:>=3-assets-on-one-validator-with-deposit")
 		}
 	}
-	for k := 1; k <= 3; k++ {
+	// time translation: the same history on a world whose base block time lies 29 years earlier
+	// (on the other side of the wall clock) must go the same way — results, balances, shares and
+	// every record, with time fields compared relative to the base. A transition that reads the
+	// wall clock instead of the block header tells the two worlds apart.
+	if w2 := shiftedWorld(); w2 != nil {
+		y := NewExec(w2)
+		for _, op := range x.Log {
+			y.Apply(op)
+			if y.Halted != "" {
+				break
+			}
+		}
+		a, b := normalizedRun(x), normalizedRun(y)
+		for i := range a {
+			if i >= len(b) || a[i] != b[i] {
+				other := "(nothing)"
+				if i < len(b) {
+					other = b[i]
+				}
+				x.Fail("C19", "time-translation", "the same history executed from base time %s and from %s diverges (block times are the only clock a transition may read): %s  vs  %s",
+					x.W.BaseTime.Format("2006-01-02"), w2.BaseTime.Format("2006-01-02"), a[i], other)
+			}
+		}
+		x.Label("c19:time-translation-compared")
+	}
+	for k := 1; k <= 5; k++ {
 		y := NewExec(x.W)
 		for _, op := range x.Log {
 			y.Apply(op)
@@ -325,4 +390,63 @@ func (OracleC19) End(x *Exec) {
 			}
 		}
 	}
+}
+
+var theShiftedWorld *World
+var shiftedWorldT *testing.T
+
+// shiftedWorld is built lazily (once per process) from the testing.T of the campaign.
+func shiftedWorld() *World {
+	if theShiftedWorld == nil && shiftedWorldT != nil {
+		theShiftedWorld = NewWorldAt(shiftedWorldT, time.Date(2001, 1, 1, 0, 0, 0, 0, time.UTC))
+	}
+	return theShiftedWorld
+}
+
+// normalizedRun renders results and final state with every time relative to the world's base time.
+func normalizedRun(x *Exec) []string {
+	base := x.W.BaseTime
+	rel := func(t time.Time) string {
+		if t.IsZero() || t.Unix() <= 0 {
+			return "zero"
+		}
+		return fmt.Sprintf("%d", t.Sub(base))
+	}
+	var out []string
+	for i, r := range x.Ress {
+		out = append(out, fmt.Sprintf("result %d %s %s|%s|%s|%s", i, x.Log[i].K, r.Class(), r.Err, r.Panic, r.AllianceEBErr))
+	}
+	s := TakeSnap(x.W, x.Ctx)
+	out = append(out, "time "+rel(s.Time))
+	for _, dn := range s.AssetOrder {
+		a := s.Assets[dn]
+		out = append(out, fmt.Sprintf("asset %s w=%s [%s,%s] take=%s T=%s S=%s start=%s init=%v chrate=%s chint=%d last=%s", dn, a.RewardWeight, a.RewardWeightRange.Min, a.RewardWeightRange.Max,
+			a.TakeRate, a.TotalTokens, a.TotalValidatorShares, rel(a.RewardStartTime), a.IsInitialized, a.RewardChangeRate, a.RewardChangeInterval, rel(a.LastRewardChangeTime)))
+	}
+	out = append(out, fmt.Sprintf("params delay=%d interval=%d last=%s flag=%v snapshots=%d", s.Params.RewardDelayTime, s.Params.TakeRateClaimInterval, rel(s.Params.LastTakeRateClaimTime), s.Flag, s.NSnapshots))
+	for _, v := range s.Vals {
+		out = append(out, fmt.Sprintf("val %d info=%v del=%v val=%v hist=%v tokens=%s shares=%s status=%d jailed=%v mod=%s", v.Idx, v.HasInfo, v.DelShares, v.ValShares, v.History, v.Tokens, v.Shares, v.Status, v.Jailed, v.ModShares))
+	}
+	for _, d := range s.Dels {
+		out = append(out, fmt.Sprintf("del %s shares=%s hist=%v", d.Key(), d.Shares, d.History))
+	}
+	for _, b := range s.Unb {
+		for _, e := range b.Entries {
+			out = append(out, fmt.Sprintf("unb %s %d/%d/%s %s", rel(b.Completion), e.D, e.V, e.Denom, e.Amt))
+		}
+	}
+	for _, i := range s.UnbIdx {
+		out = append(out, fmt.Sprintf("unbidx %s %d/%d/%s", rel(i.Completion), i.D, i.V, i.Denom))
+	}
+	for _, r := range s.Redels {
+		out = append(out, fmt.Sprintf("redel %s %d %d->%d %s %s", rel(r.Completion), r.D, r.S, r.T, r.Denom, r.Amt))
+	}
+	for _, r := range s.RedelIdx {
+		out = append(out, fmt.Sprintf("redelidx %s %d %d->%d %s", rel(r.Completion), r.D, r.S, r.T, r.Denom))
+	}
+	for _, q := range s.RedelQ {
+		out = append(out, fmt.Sprintf("redelq %s %s %s->%s %s %s", rel(q.Completion), q.Del, q.Src, q.Dst, q.Denom, q.Amt))
+	}
+	out = append(out, fmt.Sprintf("balances module=%s rewards=%s feecoll=%s bonded=%s notbonded=%s distr=%s users=%v supply=%s", s.Module, s.Rewards, s.FeeColl, s.Bonded, s.NotBonded, s.Distr, s.Users, s.Supply))
+	return out
 }
